@@ -320,7 +320,6 @@ func main() {
 	facts := map[string]any{}
 	{
 		fset, f := parse("pkg/gengo/genfile.go")
-		_ = fset
 		var b strings.Builder
 		b.WriteString("/-! REGENERATED by tools/extract from pkg/gengo/genfile.go, pkg/sumfile/file.go, pkg/types/comments.go, pkg/gengo/context.go — do not edit -/\nnamespace Gengo.Gen\n\n")
 		wf := findFunc(f, "genfile", "WriteToFile")
@@ -412,6 +411,27 @@ func main() {
 		b.WriteString("end Gengo.Gen\n")
 		emit("Consts.lean", b.String())
 
+		// what WriteToFile hands to gofumpt (C01: "for the module's language version")
+		if wf != nil {
+			ast.Inspect(wf, func(n ast.Node) bool {
+				cl, ok := n.(*ast.CompositeLit)
+				if !ok {
+					return true
+				}
+				for _, e := range cl.Elts {
+					kv, ok := e.(*ast.KeyValueExpr)
+					if !ok {
+						continue
+					}
+					if k, ok := kv.Key.(*ast.Ident); ok && (k.Name == "LangVersion" || k.Name == "ModulePath") {
+						var b bytes.Buffer
+						printer.Fprint(&b, fset, kv.Value)
+						facts["gofumpt_"+k.Name] = b.String()
+					}
+				}
+				return true
+			})
+		}
 		// structural facts for C02
 		if wf != nil {
 			pp := posOfCall(wf, "parser", "ParseFile")
